@@ -630,6 +630,14 @@ pub fn enum_tree(i: u64) -> Option<Expr> {
         Expr::Table(vec![TableItem::Keyed(Expr::Str(b"long [[ string\n\n\n\n\n\n".to_vec(), String::new()), Expr::num(1.0))]),
         Expr::index(Expr::name("t"), Expr::Str(b"x\n\n\n\n\n\ny".to_vec(), String::new())),
         Expr::Function(std::rc::Rc::new(FuncBody { params: vec![], is_vararg: true, vararg_ty: None, generics: None, ret_ty: None, body: Block { stmts: vec![Stmt::Return(vec![Expr::Vararg])] }, attributes: vec![] })),
+        // strings long enough for the long-bracket form (>= 60 bytes, or >= 20 bytes with 6 line feeds) holding every kind of
+        // ASCII white space and bracket runs: the literal must still denote the same bytes
+        Expr::Str(b"usage: tool [options] <file>\r\n  -h  show this help\r\n  -v  verbose output\r\n".to_vec(), String::new()),
+        Expr::Str(b"column one\tcolumn two\tcolumn three\tcolumn four\tcolumn five\x0bend\x0cpage".to_vec(), String::new()),
+        Expr::Str(b"one\rtwo\rthree\rfour\rfive\rsix\rseven\reight\rnine\rten\releven\rtwelve\r".to_vec(), String::new()),
+        Expr::Str(b"l1\nl2\r\nl3\nl4\nl5\nl6\nl7 ]] ]=] ]==]".to_vec(), String::new()),
+        Expr::Str(b"a long text that closes brackets ]] and ]=] and even ]==] before it ends with ]".to_vec(), String::new()),
+        Expr::Str(b"\nfirst character is a line feed and the text is long enough for the bracket form".to_vec(), String::new()),
     ];
     let ns = special.len() as u64;
     let b5 = ns * n * 2 + ns * 3 + ns;
@@ -652,9 +660,12 @@ pub fn enum_tree(i: u64) -> Option<Expr> {
     None
 }
 
+/// number of entries of the `special` operand list of `enum_tree`
+const SPECIALS: u64 = 24;
+
 pub fn enum_count() -> u64 {
     let n = 16u64;
-    n * n * 2 * 3 + n * n * n * 5 + n * 3 * 3 * 4 + 3 * 3 * 3 * 9 + 18 * n * 2 + 18 * 3 + 18
+    n * n * 2 * 3 + n * n * n * 5 + n * 3 * 3 * 4 + 3 * 3 * 3 * 9 + SPECIALS * n * 2 + SPECIALS * 3 + SPECIALS
 }
 
 fn random_tree(r: &mut Rng, depth: u32) -> Expr {
@@ -899,12 +910,43 @@ impl C02 {
             cov.hit("tree_not_convertible");
             return Ok(());
         };
+        let de2 = de.clone();
         let block = dn::Block::default().with_last_statement(dn::ReturnStatement::one(de));
         // expected: the tree itself, as `return <tree>`
         let expected = norm_block(&Block { stmts: vec![Stmt::Return(vec![t.clone()])] });
         let label = format!("tree {}", crate::reflua::print::print_expr(t));
         let uses_luau = expected.contains("ifx(") || expected.contains('`') || expected.contains(" // ");
         check_generated(&block, &expected, !uses_luau, &label, cov, spans)?;
+        // the same tree as the last value of a statement that is followed by a statement starting with `(`: the
+        // generator must separate the two (`;`), whatever parentheses it added around operands itself
+        {
+            let h = hash64(expected.as_bytes());
+            let first_kind = h % 4;
+            let x = || Expr::name("x");
+            let (first_dl, first_ref): (dn::Statement, Stmt) = match first_kind {
+                0 => (dn::AssignStatement::from_variable(dn::Variable::new("x"), de2.clone()).into(), Stmt::Assign { targets: vec![x()], values: vec![t.clone()] }),
+                1 => (dn::CompoundAssignStatement::new(dn::CompoundOperator::Plus, dn::Variable::new("x"), de2.clone()).into(), Stmt::CompoundAssign { target: x(), op: BinOp::Add, value: t.clone() }),
+                2 => (dn::LocalAssignStatement::from_variable("x").with_value(de2.clone()).into(), Stmt::Local { names: vec![Binding { name: "x".into(), ty: None, span: Default::default() }], values: vec![t.clone()], is_const: false }),
+                _ => (dn::RepeatStatement::new(dn::Block::default(), de2.clone()).into(), Stmt::Repeat { body: Block { stmts: vec![] }, cond: t.clone() }),
+            };
+            let paren_f = dn::ParentheseExpression::new(dn::Expression::identifier("f"));
+            let (second_dl, second_ref): (dn::Statement, Stmt) = match (h / 4) % 3 {
+                0 => (dn::FunctionCall::from_prefix(dn::Prefix::Parenthese(Box::new(paren_f))).into(), Stmt::Call(Expr::call(Expr::paren(Expr::name("f")), vec![]))),
+                1 => (
+                    dn::AssignStatement::from_variable(dn::FieldExpression::new(dn::Prefix::Parenthese(Box::new(paren_f)), "a"), dn::Expression::from(1.0)).into(),
+                    Stmt::Assign { targets: vec![Expr::field(Expr::paren(Expr::name("f")), "a")], values: vec![Expr::num(1.0)] },
+                ),
+                _ => (
+                    dn::CompoundAssignStatement::new(dn::CompoundOperator::Plus, dn::FieldExpression::new(dn::Prefix::Parenthese(Box::new(paren_f)), "a"), dn::Expression::from(1.0)).into(),
+                    Stmt::CompoundAssign { target: Expr::field(Expr::paren(Expr::name("f")), "a"), op: BinOp::Add, value: Expr::num(1.0) },
+                ),
+            };
+            let block2 = dn::Block::default().with_statement(first_dl).with_statement(second_dl);
+            let expected2 = norm_block(&Block { stmts: vec![first_ref, second_ref] });
+            let luau2 = uses_luau || first_kind == 1 || (h / 4) % 3 == 2;
+            check_generated(&block2, &expected2, !luau2, &format!("statement ending with {} followed by a statement starting with `(`", label), cov, spans)?;
+            cov.hit("statement_pairs_checked");
+        }
         cov.hit("trees_checked");
         cov.eval(Some(hash64(expected.as_bytes())));
         if cov.want_sample() {
